@@ -337,7 +337,7 @@ func verifC27ResultGen() *rapid.Generator[ExchangeBatchResult] {
 // position with the uvarint of a large count / length (the class "hostile count
 // field with a tiny input").
 func verifC27Hostile(t *rapid.T, enc []byte) [][]byte {
-	big := binary.AppendUvarint(nil, rapid.SampledFrom([]uint64{257, 258, 4096, 1 << 16, 1<<18 + 3}).Draw(t, "hostileCount"))
+	big := binary.AppendUvarint(nil, rapid.SampledFrom([]uint64{257, 258, 4096, 1 << 14, 1<<15 + 3}).Draw(t, "hostileCount"))
 	var positions []int
 	if len(enc) <= 300 {
 		for p := 0; p < len(enc); p++ {
@@ -521,7 +521,7 @@ func TestVerifC27ExchangeGarbage(t *testing.T) {
 			if shaped == 1 {
 				hdr = append(hdr, byte(rapid.IntRange(0, 1).Draw(rt, "priority")))
 			}
-			hdr = binary.AppendUvarint(hdr, uint64(rapid.SampledFrom([]int{1, 2, 255, 256, 257, 1 << 18}).Draw(rt, "count")))
+			hdr = binary.AppendUvarint(hdr, uint64(rapid.SampledFrom([]int{1, 2, 255, 256, 257, 1 << 15}).Draw(rt, "count")))
 			raw = append(hdr, raw...)
 		}
 		errB := verifC27Guard(rt, "replication.DecodeExchangeBatch(garbage)", raw, func(b []byte) error { _, e := DecodeExchangeBatch(b); return e })
